@@ -243,7 +243,19 @@ class Real:
         if m == 'groupby':
             return obj.groupby(*[self.feat(i) for i in al['groups'][a - 1]])
         if m == 'orderby':
-            return obj.orderby(*[(self.feat(o['x']), o['dir']) for o in al['orders'][a - 1]])
+            # the documented spellings of an ordering term are equivalent: (feature, direction) pairs, ready-made
+            # dsl.Ordering instances, feature and direction as consecutive arguments - rotated call by call
+            self.spelling = getattr(self, 'spelling', 0) + 1
+            terms = []
+            for o in al['orders'][a - 1]:
+                feature = self.feat(o['x'])
+                if self.spelling % 3 == 0:
+                    terms.append((feature, o['dir']))
+                elif self.spelling % 3 == 1:
+                    terms.append(self.dsl.Ordering(feature, o['dir']))
+                else:
+                    terms.extend([feature, o['dir']])
+            return obj.orderby(*terms)
         if m == 'limit':
             return obj.limit(*al['limits'][a - 1])
         if m == 'join':
